@@ -223,6 +223,8 @@ func C06(ctx *core.Ctx, r *core.Report) {
 	c06ExtensionOnce(ctx, r, g)
 	c06SiblingOrder(ctx, r)
 	c06BuilderFresh(ctx, r)
+	c06AppendKeepsOrder(ctx, r)
+	c06EscapeOnlyInDoubleQuotes(ctx, r)
 }
 
 // D6/D7: lexer.keywords[i] spells the i-th kywd token declared after token_semi.
@@ -1312,4 +1314,138 @@ func builderFallible(ctx *core.Ctx, method string) bool {
 		return false
 	}
 	return walk(f, 0)
+}
+
+// c06AppendKeepsOrder: the Builder (and the add* methods it calls) receive the
+// statements of a module in the order they are written. A collection kept in a
+// slice preserves that order only if every addition is an append at the end:
+// a store into an element of the field's slice, or a copy() that shifts its
+// elements, inserts somewhere else and the textual order is gone.
+func c06AppendKeepsOrder(ctx *core.Ctx, r *core.Report) {
+	inMetaStruct := func(v ssa.Value) (string, bool) {
+		u, ok := core.Strip(v).(*ssa.UnOp)
+		if !ok || u.Op != token.MUL {
+			// a re-slice of the field: x.rev[at+1:]
+			if sl, isSl := core.Strip(v).(*ssa.Slice); isSl {
+				u2, ok2 := core.Strip(sl.X).(*ssa.UnOp)
+				if !ok2 || u2.Op != token.MUL {
+					return "", false
+				}
+				u = u2
+			} else {
+				return "", false
+			}
+		}
+		fa, ok := u.X.(*ssa.FieldAddr)
+		if !ok {
+			return "", false
+		}
+		n := core.NamedOf(fa.X.Type())
+		if n == nil || n.Obj().Pkg() == nil || n.Obj().Pkg().Path() != core.Full("meta") {
+			return "", false
+		}
+		st := core.Deref(fa.X.Type()).Underlying().(*types.Struct)
+		if _, isSlice := st.Field(fa.Field).Type().Underlying().(*types.Slice); !isSlice {
+			return "", false
+		}
+		return n.Obj().Name() + "." + st.Field(fa.Field).Name(), true
+	}
+	nAppend := 0
+	for _, f := range scopeFuncs(ctx, "meta", "builder.go", "core_gen.go", "core.go") {
+		// the resolver re-orders on purpose (popDataDefinitions etc.); this rule is about parse time
+		isBuilder := false
+		if rv := f.Signature.Recv(); rv != nil {
+			if n := core.NamedOf(rv.Type()); n != nil && n.Obj().Name() == "Builder" {
+				isBuilder = true
+			}
+		}
+		if !isBuilder && !strings.HasPrefix(f.Name(), "add") {
+			continue
+		}
+		core.Instrs(f, func(_ *ssa.BasicBlock, in ssa.Instruction) {
+			switch x := in.(type) {
+			case *ssa.Store:
+				if ia, ok := x.Addr.(*ssa.IndexAddr); ok {
+					if fld, ok := inMetaStruct(ia.X); ok {
+						r.Ob("append-keeps-order", core.FnName(f)+"/"+fld+"/element-store", ctx.Pos(x.Pos()), false,
+							"a statement is placed into the middle of "+fld+" (element store) instead of being appended: the collection no longer has the order in which the statements were written")
+					}
+				}
+			case *ssa.Call:
+				b, ok := x.Common().Value.(*ssa.Builtin)
+				if !ok {
+					return
+				}
+				switch b.Name() {
+				case "copy":
+					if fld, ok := inMetaStruct(x.Common().Args[0]); ok {
+						r.Ob("append-keeps-order", core.FnName(f)+"/"+fld+"/shift", ctx.Pos(x.Pos()), false,
+							"the elements of "+fld+" are shifted with copy() to insert a statement at another place than the end: the collection no longer has the order in which the statements were written")
+					}
+				case "append":
+					if fld, ok := inMetaStruct(x.Common().Args[0]); ok {
+						nAppend++
+						// appended value goes back to the same field
+						_ = fld
+					}
+				}
+			}
+		})
+	}
+	r.Ob("append-keeps-order", "meta.Builder/additions-are-appends", "meta/builder.go", nAppend >= 10,
+		fmt.Sprintf("%d appends to slice fields of schema objects found at parse time (expected at least 10)", nAppend))
+	r.Count("instances:append-keeps-order(appends)", nAppend)
+}
+
+// c06EscapeOnlyInDoubleQuotes: RFC 7950 6.1.3 — only a double-quoted string has
+// backslash escapes; within single quotes a backslash is an ordinary character.
+// In lexer.acceptString every "skip the next character" (a next() whose result is
+// discarded) is therefore under the test that the string began with a double quote.
+func c06EscapeOnlyInDoubleQuotes(ctx *core.Ctx, r *core.Report) {
+	f := ctx.Method("parser", "lexer", "acceptString")
+	next := ctx.Method("parser", "lexer", "next")
+	if f == nil || next == nil {
+		r.Fatalf("anchors parser.lexer.acceptString / next not found")
+		return
+	}
+	n := 0
+	for _, c := range callsStatic(f, next, false) {
+		v := c.Value()
+		used := false
+		if v != nil && v.Referrers() != nil {
+			for _, ref := range *v.Referrers() {
+				if _, dbg := ref.(*ssa.DebugRef); !dbg {
+					used = true
+				}
+			}
+		}
+		if used {
+			continue
+		}
+		n++
+		dq, bs := false, false
+		for _, pc := range core.PathConds(c.Block()) {
+			bo, ok := pc.V.(*ssa.BinOp)
+			if !ok {
+				continue
+			}
+			cv, isC := core.ConstInt(bo.Y)
+			if !isC {
+				cv, isC = core.ConstInt(bo.X)
+			}
+			if !isC {
+				continue
+			}
+			holds := (bo.Op == token.EQL && pc.True) || (bo.Op == token.NEQ && !pc.True)
+			if cv == '"' && holds {
+				dq = true
+			}
+			if cv == '\\' && holds {
+				bs = true
+			}
+		}
+		r.Ob("escape-only-in-double-quotes", fmt.Sprintf("parser.lexer.acceptString/skip#%d", n), ctx.Pos(c.Pos()), dq && bs,
+			"a character is skipped while scanning a string without the tests that the previous character is a backslash AND that the string began with a double quote: inside single quotes a backslash is an ordinary character (RFC 7950 6.1.3), so '…\\' would not end at its closing quote and the following statements are swallowed or the module is rejected")
+	}
+	r.Floor("escape-only-in-double-quotes", n, 1)
 }
